@@ -5,6 +5,7 @@ from fixedint import UInt16
 
 from .toy_instructions import AddressTypeInstruction, instruction_map
 from ..parser_exceptions import (
+    ParserSyntaxException,
     ParserLabelException,
     ParserDataSyntaxException,
     MemorySizeException,
@@ -110,7 +111,8 @@ class ToyParser(Parser):
                 )
                 for value in values_to_write:
                     self.state.memory.write_halfword(
-                        write_address, UInt16(self._value_to_int(value))
+                        write_address,
+                        UInt16(self._value_to_int(value, line_number, line)),
                     )
                     write_address += 1
 
@@ -128,7 +130,7 @@ class ToyParser(Parser):
             instruction_class = instruction_map[mnemonic]
             if issubclass(instruction_class, AddressTypeInstruction):
                 if tokens.address:
-                    address = self._value_to_int(tokens.address)
+                    address = self._value_to_int(tokens.address, linenumber, line)
                 else:  # else a label is used
                     try:
                         address = self.labels[tokens.label]
@@ -152,19 +154,27 @@ class ToyParser(Parser):
                 pc_old=UInt16(0), ram_out=UInt16(int(instructions[0]))
             )
 
-    def _value_to_int(self, address: str) -> int:
+    def _value_to_int(self, address: str, line_number: int, line: str) -> int:
         """Convert addresses to ints. Hex addresses (starting with '0x') and decimal addresses are supported.
 
         Args:
             address (str): An address like '0xd9c' or '1044'.
+            line_number (int): The line in which the value appears (for error reports).
+            line (str): The text of that line.
+
+        Raises:
+            ParserSyntaxException: If the literal cannot be converted.
 
         Returns:
             int: the corresponding integer.
         """
-        if address.startswith("0x"):
-            return int(address[2:], base=16)
-        else:
-            return int(address)
+        try:
+            if address.startswith("0x"):
+                return int(address[2:], base=16)
+            else:
+                return int(address)
+        except ValueError:
+            raise ParserSyntaxException(line_number=line_number, line=line)
 
     def _process_labels(self):
         """Takes the labels and computes the addresses for the labels from self.token_list and stores both in self.labels."""
